@@ -61,7 +61,11 @@ theorem modop_refused (c : Cfg) (s : St) (op : Op) (m : ModId) (e : Int) (ht : o
   | dereg m' =>
     have hm : m' = m := by simpa [Op.modTarget] using ht
     subst hm
-    exact ⟨e, by simp [apiProg, modDeregisterP, modDeregCore, h], fun _ => .inl rfl, by simp [Op.paramsOk]⟩
+    refine ⟨e, ?_, fun _ => .inl rfl, by simp [Op.paramsOk]⟩
+    have hne : e ≠ 0 := by
+      have := modAssert_neg s _ e h
+      omega
+    simp [apiProg, modDeregisterP, modDeregCore, h, hne]
   | start m' =>
     have hm : m' = m := by simpa [Op.modTarget] using ht
     subst hm
